@@ -34,9 +34,13 @@ func NewSubscriptionManager(localDevice api.DeviceLocalInterface) *SubscriptionM
 
 // is sent from the client (remote device) to the server (local device)
 func (c *SubscriptionManager) AddSubscription(remoteDevice api.DeviceRemoteInterface, data model.SubscriptionManagementRequestCallType) error {
+	if data.ServerAddress == nil || data.ClientAddress == nil || data.ServerFeatureType == nil {
+		return errors.New("serverAddress, clientAddress and serverFeatureType are required")
+	}
+
 	serverFeature := c.localDevice.FeatureByAddress(data.ServerAddress)
 	if serverFeature == nil {
-		return fmt.Errorf("server feature '%s' in local device '%s' not found", data.ServerAddress, *c.localDevice.Address())
+		return fmt.Errorf("server feature '%s' in local device '%s' not found", data.ServerAddress, addressString(c.localDevice.Address()))
 	}
 	if err := c.checkRoleAndType(serverFeature, model.RoleTypeServer, *data.ServerFeatureType); err != nil {
 		return err
@@ -44,7 +48,7 @@ func (c *SubscriptionManager) AddSubscription(remoteDevice api.DeviceRemoteInter
 
 	clientFeature := remoteDevice.FeatureByAddress(data.ClientAddress)
 	if clientFeature == nil {
-		return fmt.Errorf("client feature '%s' in remote device '%s' not found", data.ClientAddress, *remoteDevice.Address())
+		return fmt.Errorf("client feature '%s' in remote device '%s' not found", data.ClientAddress, addressString(remoteDevice.Address()))
 	}
 	if err := c.checkRoleAndType(clientFeature, model.RoleTypeClient, *data.ServerFeatureType); err != nil {
 		return err
@@ -92,6 +96,10 @@ func (c *SubscriptionManager) RemoveSubscription(data model.SubscriptionManageme
 	// b. The absence of "subscriptionDelete. serverAddress. device" SHALL be treated as if it was
 	//    present and set to the recipient's "device" address part.
 
+	if data.ServerAddress == nil || data.ClientAddress == nil {
+		return errors.New("serverAddress and clientAddress are required")
+	}
+
 	var clientAddress model.FeatureAddressType
 	util.DeepCopy(data.ClientAddress, &clientAddress)
 	if data.ClientAddress.Device == nil {
@@ -100,12 +108,12 @@ func (c *SubscriptionManager) RemoveSubscription(data model.SubscriptionManageme
 
 	clientFeature := remoteDevice.FeatureByAddress(data.ClientAddress)
 	if clientFeature == nil {
-		return fmt.Errorf("client feature '%s' in remote device '%s' not found", data.ClientAddress, *remoteDevice.Address())
+		return fmt.Errorf("client feature '%s' in remote device '%s' not found", data.ClientAddress, addressString(remoteDevice.Address()))
 	}
 
 	serverFeature := c.localDevice.FeatureByAddress(data.ServerAddress)
 	if serverFeature == nil {
-		return fmt.Errorf("server feature '%s' in local device '%s' not found", data.ServerAddress, *c.localDevice.Address())
+		return fmt.Errorf("server feature '%s' in local device '%s' not found", data.ServerAddress, addressString(c.localDevice.Address()))
 	}
 
 	c.mux.Lock()
